@@ -71,6 +71,8 @@ class RustRef:
     def __init__(self, mdl: Model, acap: int, pcap: int, ocap: int):
         self.m = mdl
         self.acap, self.pcap, self.ocap = acap, pcap, ocap
+        self.kdraw, self.pdraw = 2, 2       # elements / payload octets drawn by draw_<T>
+        self.mcmp = 16                      # octets compared by bytes_eq_m
         self.big = 'true' if mdl.endian == 'big' else 'false'
         self.types = [n for n in mdl.plans]          # packets and structs, declaration order
         self.order = self._topo()
@@ -447,3 +449,398 @@ class RustRef:
                 self.emit_rd_any(w, name)
                 self.emit_eq(w, name)
         return w.text()
+
+
+# ===================================================================== encode side
+def _bmask(width):
+    b = backing(width)
+    return 'u64::MAX' if b == 64 else f'{(1 << b) - 1:#x}u64'
+
+
+def _wmask(width):
+    return 'u64::MAX' if width == 64 else f'{(1 << width) - 1:#x}u64'
+
+
+class _Enc:
+    """mix-in methods of RustRef for the value-driven harnesses (draw / build / wf / encode)"""
+
+    def put_uint(self, v: str, n: int) -> str:
+        """straight-line: n octets of the u64 expression v in file byte order"""
+        outs = []
+        for i in range(n):
+            sh = 8 * i if self.m.endian == 'little' else 8 * (n - 1 - i)
+            outs.append(f'out.put((pv >> {sh}) as u8);' if sh else 'out.put(pv as u8);')
+        return '{ let pv: u64 = ' + v + '; ' + ' '.join(outs) + ' }'
+
+    def emit_cmp(self, w: W):
+        """straight-line comparison of two buffers up to MCMP octets"""
+        w.open(f'pub fn bytes_eq_m(a: &[u8], alen: usize, b: &[u8], blen: usize) -> bool {{')
+        w('if alen != blen { return false; }')
+        w('let mut ok = true;')
+        for i in range(self.mcmp):
+            w(f'if {i} < alen {{ ok &= a[{i}] == b[{i}]; }}')
+        w('ok')
+        w.close()
+
+    # ---- draw: arbitrary reference value, every draw is one u64 word in a static order
+    def emit_draw(self, w: W, name):
+        ch = self.m.chain(name)
+        cs = self.m.all_constraints(name)
+        w.open(f'pub fn draw_{name}<S: Src>(s: &mut S, k: usize, p: usize, ok: &mut bool) -> R_{name} {{')
+        w(f'let mut r = R_{name}::new();')
+        for lv, n in enumerate(ch):
+            flags = self.m.flags(n)
+            for fl in flags:
+                w(f'let flag_{lv}_{fl}: u64 = s.word() & 1;')
+            for f in self.own_named(n):
+                tgt = f'r.l{lv}.f_{f.name}'
+                if f.name in cs:
+                    w(f'{tgt} = {self.m.constraint_value(name, f.name, cs[f.name]):#x}u64;')
+                    continue
+                if f.cond is not None:
+                    w.open(f'if flag_{lv}_{f.cond[0]} == {f.cond[1]} {{')
+                    w(f'{tgt} = ROpt {{ some: true, v: {self._draw_expr(f)} }};')
+                    w.close()
+                elif f.kind == 'array':
+                    if f.count is not None:
+                        w(f'let n_{lv}_{f.name}: usize = {f.count};')
+                    else:
+                        w(f'let n_{lv}_{f.name}: usize = (s.word() & 0xff) as usize;')
+                        w(f'if n_{lv}_{f.name} > k {{ *ok = false; }}')
+                    w(f'let mut i: usize = 0;')
+                    w.open(f'while i < {self.kdraw if f.count is None else f.count} {{')
+                    w(f'let x = {self._draw_expr(f)};')
+                    w(f'if i < n_{lv}_{f.name} {{ {tgt}.push(x); }}')
+                    w('i += 1;')
+                    w.close()
+                else:
+                    w(f'{tgt} = {self._draw_expr(f)};')
+            if n == ch[-1] and self.m.has_payload(n):
+                w(f'let npl: usize = (s.word() & 0xff) as usize;')
+                w('if npl > p { *ok = false; }')
+                w('let mut i: usize = 0;')
+                w.open(f'while i < {self.pdraw} {{')
+                w('let x = (s.word() & 0xff) as u8;')
+                w(f'if i < npl {{ r.l{lv}.payload.push(x); }}')
+                w('i += 1;')
+                w.close()
+        w('r')
+        w.close()
+
+    def _draw_expr(self, f: M.Field) -> str:
+        if f.kind == 'scalar' or (f.kind == 'array' and f.width is not None):
+            return f'(s.word() & {_bmask(f.width)})'
+        k = self.m.kind_of(f.type_id)
+        d = self.m.decls[f.type_id]
+        if k in ('enum', 'custom_field'):
+            return f'(s.word() & {_bmask(d.width)})'
+        return f'draw_{f.type_id}(s, k, p, ok)'
+
+    # ---- build the generated value from a reference value
+    def _build_scalarlike(self, f: M.Field, r: str) -> str:
+        """expression of the generated field type from the u64 `r`; may `return None`"""
+        if f.kind == 'scalar' or (f.kind == 'array' and f.width is not None):
+            return f'({r} as u{backing(f.width)})'
+        d = self.m.decls[f.type_id]
+        bt = backing(d.width)
+        if d.kind == 'enum':
+            return f'(match {f.type_id}::try_from({r} as u{bt}) {{ Ok(e) => e, Err(_) => return None }})'
+        if d.kind == 'custom_field':
+            if d.width in (8, 16, 32, 64):
+                return f'{f.type_id}::from({r} as u{bt})'
+            return f'(match {f.type_id}::try_from({r} as u{bt}) {{ Ok(e) => e, Err(_) => return None }})'
+        raise Unsupported(d.kind)
+
+    def emit_build(self, w: W, name):
+        w.open(f'pub fn build_{name}(r: &R_{name}) -> Option<{name}> {{')
+        inits = []
+        for decl_name, f in self.m.data_fields(name):
+            lv = self.m.chain(name).index(decl_name)
+            r = f'r.l{lv}.f_{f.name}'
+            v = f'g_{f.name}'
+            is_struct = f.type_id is not None and self.m.kind_of(f.type_id) == 'struct'
+            if f.kind == 'array':
+                elem = (lambda x: f'build_{f.type_id}(&{x})?') if is_struct else (lambda x: self._build_scalarlike(f, x))
+                if f.count is not None:
+                    w(f'if {r}.len != {f.count} {{ return None; }}')
+                    w(f'let {v} = [' + ', '.join(elem(f'{r}.items[{i}]') for i in range(f.count)) + '];')
+                else:
+                    w(f'let mut {v} = Vec::new();')
+                    w(f'{{ let mut i: usize = 0; while i < {r}.len {{ {v}.push({elem(r + ".items[i]")}); i += 1; }} }}')
+            elif f.cond is not None:
+                inner = f'build_{f.type_id}(&{r}.v)?' if is_struct else self._build_scalarlike(f, r + '.v')
+                w(f'let {v} = if {r}.some {{ Some({inner}) }} else {{ None }};')
+            elif is_struct:
+                w(f'let {v} = build_{f.type_id}(&{r})?;')
+            else:
+                w(f'let {v} = {self._build_scalarlike(f, r)};')
+            inits.append(f'{f.name}: {v}')
+        if self.m.has_payload(name):
+            lv = len(self.m.chain(name)) - 1
+            w('let mut g_payload: Vec<u8> = Vec::new();')
+            w(f'{{ let mut i: usize = 0; while i < r.l{lv}.payload.len {{ g_payload.push(r.l{lv}.payload.items[i]); i += 1; }} }}')
+            inits.append('payload: g_payload')
+        w(f'Some({name} {{ ' + ', '.join(inits) + ' })')
+        w.close()
+
+    # ---- sizes, well-formedness, encoding of one declaration level
+    def _elem_len(self, seg: ArraySeg, x: str) -> str:
+        if seg.elem[0] == 'struct':
+            return f'ref_len_{seg.elem[1]}(&{x})'
+        return str(seg.elem_static)
+
+    def emit_own(self, w: W, n):
+        plan = self.m.plans[n]
+        big = self.big
+        arrays = [s for s in plan if isinstance(s, ArraySeg)]
+        # ---- length
+        w.open(f'pub fn len_own_{n}(o: &O_{n}, pl_len: usize) -> usize {{')
+        w('let mut t: usize = 0;')
+        for seg in plan:
+            if isinstance(seg, Chunk):
+                w(f't += {seg.nbytes};')
+            elif isinstance(seg, OptSeg):
+                if seg.inner[0] == 'scalar':
+                    w(f'if o.f_{seg.name}.some {{ t += {seg.inner[1]}; }}')
+                elif seg.inner[0] == 'enum':
+                    w(f'if o.f_{seg.name}.some {{ t += {self.m.decls[seg.inner[1]].width // 8}; }}')
+                else:
+                    w(f'if o.f_{seg.name}.some {{ t += ref_len_{seg.inner[1]}(&o.f_{seg.name}.v); }}')
+            elif isinstance(seg, StructSeg):
+                w(f't += ref_len_{seg.decl}(&o.f_{seg.name});')
+            elif isinstance(seg, CustomSeg):
+                w(f't += {seg.nbytes};')
+            elif isinstance(seg, PayloadSeg):
+                w('t += pl_len;')
+            elif isinstance(seg, ArraySeg):
+                if seg.padding is not None:
+                    w(f't += {seg.padding};')
+                else:
+                    w(f't += alen_{n}_{seg.name}(o);')
+        w('t')
+        w.close()
+        for seg in arrays:
+            w.open(f'pub fn alen_{n}_{seg.name}(o: &O_{n}) -> usize {{')
+            w('let mut t: usize = 0; let mut i: usize = 0;')
+            w(f'while i < o.f_{seg.name}.len {{ t += {self._elem_len(seg, f"o.f_{seg.name}.items[i]")}; i += 1; }}')
+            w('t')
+            w.close()
+        # ---- well-formedness (faults in wire order)
+        w.open(f'pub fn wf_own_{n}(o: &O_{n}, pl_len: usize, ef: &mut EFaults) {{')
+        for seg in plan:
+            if isinstance(seg, Chunk):
+                for it in seg.items:
+                    if it.kind == 'scalar':
+                        if backing(it.width) > it.width:
+                            w(f'if o.f_{it.name} > {_wmask(it.width)} {{ ef.add(EFault::Scalar); }}')
+                    elif it.kind == 'flag':
+                        if len(it.opts) > 1:
+                            conds = [f'(if o.f_{fid}.some {{ {cv}u64 }} else {{ {1 - cv}u64 }})' for fid, cv in it.opts]
+                            w('if ' + ' || '.join(f'{conds[0]} != {c}' for c in conds[1:]) + ' { ef.add(EFault::Condition); }')
+                    elif it.kind == 'size':
+                        if it.target in ('_payload_', '_body_'):
+                            pseg = [s for s in plan if isinstance(s, PayloadSeg)][0]
+                            w(f'if (pl_len as u128) + {pseg.modifier} > {(1 << it.width) - 1}u128 {{ ef.add(EFault::Size); }}')
+                        else:
+                            w(f'if (alen_{n}_{it.target}(o) as u128) > {(1 << it.width) - 1}u128 {{ ef.add(EFault::Size); }}')
+                    elif it.kind == 'count':
+                        w(f'if (o.f_{it.target}.len as u128) > {(1 << it.width) - 1}u128 {{ ef.add(EFault::Count); }}')
+                    elif it.kind == 'elemsize':
+                        aseg = [s for s in arrays if s.name == it.target][0]
+                        a = f'o.f_{it.target}'
+                        w.open('{')
+                        w(f'let es0: usize = if {a}.len > 0 {{ {self._elem_len(aseg, a + ".items[0]")} }} else {{ 0 }};')
+                        w('let mut i: usize = 0; let mut bad = false;')
+                        w(f'while i < {a}.len {{ if {self._elem_len(aseg, a + ".items[i]")} != es0 {{ bad = true; }} i += 1; }}')
+                        w('if bad { ef.add(EFault::ElementSize); }')
+                        w(f'else if (es0 as u128) > {(1 << it.width) - 1}u128 {{ ef.add(EFault::Size); }}')
+                        w.close()
+            elif isinstance(seg, OptSeg):
+                f = [x for x in self.m.fields[n] if x.name == seg.name][0]
+                if seg.inner[0] == 'scalar':
+                    if backing(f.width) > f.width:
+                        w(f'if o.f_{seg.name}.some && o.f_{seg.name}.v > {_wmask(f.width)} {{ ef.add(EFault::Scalar); }}')
+                elif seg.inner[0] == 'struct':
+                    w(f'if o.f_{seg.name}.some {{ ref_wf_{seg.inner[1]}(&o.f_{seg.name}.v, ef); }}')
+            elif isinstance(seg, StructSeg):
+                w(f'ref_wf_{seg.decl}(&o.f_{seg.name}, ef);')
+            elif isinstance(seg, ArraySeg):
+                a = f'o.f_{seg.name}'
+                if seg.padding is not None:
+                    w(f'if alen_{n}_{seg.name}(o) > {seg.padding} {{ ef.add(EFault::Size); }}')
+                if seg.elem[0] == 'struct':
+                    w(f'{{ let mut i: usize = 0; while i < {a}.len {{ ref_wf_{seg.elem[1]}(&{a}.items[i], ef); i += 1; }} }}')
+        w.close()
+        # ---- encode
+        w.open(f'pub fn re_own_{n}(o: &O_{n}, pl: &[u8], out: &mut RBuf<{self.ocap}>) {{')
+        for si, seg in enumerate(plan):
+            if isinstance(seg, Chunk):
+                terms = []
+                for it in seg.items:
+                    if it.kind in ('scalar', 'enum'):
+                        v = f'o.f_{it.name}'
+                    elif it.kind in ('fixed_scalar', 'fixed_enum'):
+                        v = f'{it.value:#x}u64'
+                    elif it.kind == 'reserved':
+                        continue
+                    elif it.kind == 'flag':
+                        fid, cv = it.opts[0]
+                        v = f'(if o.f_{fid}.some {{ {cv}u64 }} else {{ {1 - cv}u64 }})'
+                    elif it.kind == 'size':
+                        if it.target in ('_payload_', '_body_'):
+                            pseg = [s for s in plan if isinstance(s, PayloadSeg)][0]
+                            v = f'((pl.len() + {pseg.modifier}) as u64)'
+                        else:
+                            v = f'(alen_{n}_{it.target}(o) as u64)'
+                    elif it.kind == 'count':
+                        v = f'(o.f_{it.target}.len as u64)'
+                    elif it.kind == 'elemsize':
+                        aseg = [s for s in arrays if s.name == it.target][0]
+                        a = f'o.f_{it.target}'
+                        v = f'((if {a}.len > 0 {{ {self._elem_len(aseg, a + ".items[0]")} }} else {{ 0 }}) as u64)'
+                    else:
+                        raise Unsupported(it.kind)
+                    v = f'({v} & {_wmask(it.width)})'
+                    terms.append(f'({v} << {it.shift})' if it.shift else v)
+                w(self.put_uint(" | ".join(terms) if terms else "0u64", seg.nbytes))
+            elif isinstance(seg, OptSeg):
+                w.open(f'if o.f_{seg.name}.some {{')
+                if seg.inner[0] == 'scalar':
+                    w(self.put_uint(f'o.f_{seg.name}.v', seg.inner[1]))
+                elif seg.inner[0] == 'enum':
+                    w(self.put_uint(f'o.f_{seg.name}.v', self.m.decls[seg.inner[1]].width // 8))
+                else:
+                    w(f'ref_encode_{seg.inner[1]}(&o.f_{seg.name}.v, out);')
+                w.close()
+            elif isinstance(seg, StructSeg):
+                w(f'ref_encode_{seg.decl}(&o.f_{seg.name}, out);')
+            elif isinstance(seg, CustomSeg):
+                w(self.put_uint(f'o.f_{seg.name}', seg.nbytes))
+            elif isinstance(seg, PayloadSeg):
+                w('out.extend(pl);')
+            elif isinstance(seg, ArraySeg):
+                a = f'o.f_{seg.name}'
+                w.open('{')
+                w('let start: usize = out.len;')
+                w('let mut i: usize = 0;')
+                w.open(f'while i < {a}.len {{')
+                if seg.elem[0] == 'struct':
+                    w(f'ref_encode_{seg.elem[1]}(&{a}.items[i], out);')
+                else:
+                    w(self.put_uint(f'{a}.items[i]', seg.elem_static))
+                w('i += 1;')
+                w.close()
+                if seg.padding is not None:
+                    w(f'if out.len - start < {seg.padding} {{ out.zeros({seg.padding} - (out.len - start)); }}')
+                w.close()
+        w.close()
+
+    def emit_type_encode(self, w: W, name):
+        ch = self.m.chain(name)
+        k = len(ch) - 1
+        leaf_pl = f'&r.l{k}.payload.items[..r.l{k}.payload.len]' if self.m.has_payload(name) else '&[]'
+        # length
+        w.open(f'pub fn ref_len_{name}(r: &R_{name}) -> usize {{')
+        w(f'let mut n: usize = len_own_{ch[k]}(&r.l{k}, {f"r.l{k}.payload.len" if self.m.has_payload(name) else "0"});')
+        for i in range(k - 1, -1, -1):
+            w(f'n = len_own_{ch[i]}(&r.l{i}, n);')
+        w('n')
+        w.close()
+        # well-formedness: faults of the innermost level belong to the payload position of its parent,
+        # scalar faults of outer levels before the payload come first in wire order; a single fault is
+        # what the harness constrains, so the order only matters for `first`
+        w.open(f'pub fn ref_wf_{name}(r: &R_{name}, ef: &mut EFaults) {{')
+        w(f'let mut n: usize = len_own_{ch[k]}(&r.l{k}, {f"r.l{k}.payload.len" if self.m.has_payload(name) else "0"});')
+        lens = []
+        for i in range(k, -1, -1):
+            pl = (f'r.l{k}.payload.len' if self.m.has_payload(name) else '0') if i == k else f'n{i + 1}'
+            w(f'let n{i}: usize = len_own_{ch[i]}(&r.l{i}, {pl});')
+        for i in range(k + 1):
+            pl = (f'r.l{k}.payload.len' if self.m.has_payload(name) else '0') if i == k else f'n{i + 1}'
+            w(f'wf_own_{ch[i]}(&r.l{i}, {pl}, ef);')
+        w.close()
+        # encode
+        w.open(f'pub fn ref_encode_{name}(r: &R_{name}, out: &mut RBuf<{self.ocap}>) {{')
+        if k == 0:
+            w(f're_own_{ch[0]}(&r.l0, {leaf_pl}, out);')
+        else:
+            w(f'let mut b{k} = RBuf::<{self.ocap}>::new();')
+            w(f're_own_{ch[k]}(&r.l{k}, {leaf_pl}, &mut b{k});')
+            for i in range(k - 1, 0, -1):
+                w(f'let mut b{i} = RBuf::<{self.ocap}>::new();')
+                w(f're_own_{ch[i]}(&r.l{i}, &b{i + 1}.buf[..b{i + 1}.len], &mut b{i});')
+                w(f'if b{i + 1}.overflow {{ b{i}.overflow = true; }}')
+            w(f're_own_{ch[0]}(&r.l0, &b1.buf[..b1.len], out);')
+            w('if b1.overflow { out.overflow = true; }')
+        w.close()
+
+    def emit_encode_side(self) -> str:
+        w = W()
+        self.emit_cmp(w)
+        sup = [n for n in self.types if self.supported(n)]
+        for n in sup:
+            self.emit_own(w, n)
+        for n in sup:
+            self.emit_type_encode(w, n)
+            self.emit_draw(w, n)
+            self.emit_build(w, n)
+        return w.text()
+
+    # ---- python mirror of draw_<T>: rebuild the reference value from the words of a counterexample
+    def value_from_words(self, name, words: List[int], k: int, p: int):
+        it = iter(list(words) + [0] * 4096)
+        ok = [True]
+
+        def draw_field(f):
+            if f.kind == 'scalar' or (f.kind == 'array' and f.width is not None):
+                return next(it) & ((1 << backing(f.width)) - 1)
+            d = self.m.decls[f.type_id]
+            if d.kind in ('enum', 'custom_field'):
+                return next(it) & ((1 << backing(d.width)) - 1)
+            return draw(f.type_id)
+
+        def draw(tname):
+            vals = {}
+            ch = self.m.chain(tname)
+            cs = self.m.all_constraints(tname)
+            for lv, n in enumerate(ch):
+                flags = self.m.flags(n)
+                fv = {fl: next(it) & 1 for fl in flags}
+                for f in self.own_named(n):
+                    if f.name in cs:
+                        continue
+                    if f.cond is not None:
+                        vals[f.name] = draw_field(f) if fv[f.cond[0]] == f.cond[1] else None
+                    elif f.kind == 'array':
+                        if f.count is not None:
+                            cnt, loop = f.count, f.count
+                        else:
+                            cnt, loop = next(it) & 0xff, self.kdraw
+                            if cnt > k:
+                                ok[0] = False
+                        xs = []
+                        for i in range(loop):
+                            x = draw_field(f)
+                            if i < cnt:
+                                xs.append(x)
+                        vals[f.name] = xs
+                    else:
+                        vals[f.name] = draw_field(f)
+                if n == ch[-1] and self.m.has_payload(n):
+                    npl = next(it) & 0xff
+                    if npl > p:
+                        ok[0] = False
+                    bs = []
+                    for i in range(self.pdraw):
+                        x = next(it) & 0xff
+                        if i < npl:
+                            bs.append(x)
+                    vals['payload'] = bs
+            return vals
+        v = draw(name)
+        return v, ok[0]
+
+
+for _k, _v in list(_Enc.__dict__.items()):
+    if not _k.startswith('__'):
+        setattr(RustRef, _k, _v)
